@@ -30,7 +30,7 @@ def generate(ctx):
         if not feats:
             continue
         suffix = rng.choice(["gb", "gff"])
-        annob = anno.render_genbank(genome, feats, rng) if suffix == "gb" else anno.render_gff(genome, feats)
+        annob = anno.render_genbank(genome, feats, rng) if suffix == "gb" else anno.render_gff(genome, feats, mix=rng)
         recs = []
         nontriv = False
         equalw = rng.random() < 0.35      # several single-record queries whose insertions have the same total length at different places
